@@ -1,8 +1,94 @@
 /-
-  C08 — property theorems (only `theorem C08_*` statements and non-vacuity examples live here;
-  helper lemmas go to CedarGoProofs/Lemmas/).
+  C08 — Cedar text marshalling round-trips every policy.
+
+  Objects.  `Text.marshalPolicy` (CedarGo/Model/Text/Marshal.lean) is the model of Go's `Policy.MarshalCedar`
+  (cedar_marshal.go, node.go and the value printers): a list of tokens and white-space pieces, from which both
+  the exact bytes (`pieceText`) and the token list the parser sees (`pieceToks`) are read off.  `./check C08`
+  compares bytes AND tokens with the Go output and model parse∘marshal with Go parse∘marshal on every
+  generated policy inside the modelled domain, and runs the property itself (render → parse → compare
+  effect/annotations/scope, evaluate on ≥ 8 environments, re-render, lists / sets / Encoder→Decoder) on the
+  Go implementation for policies from the builder, from text and from JSON.
+
+  WHAT IS PROVED
+  * C08_marshal_parses_partial      on `policyOKGo`: the rendering parses, and to the IDENTICAL policy;
+    hence C08_marshal_meaning_partial (same effect, annotations, scope, same evaluation on every environment)
+    and C08_marshal_idempotent_partial (re-rendering gives the same bytes)
+  * C08_list_roundtrip_partial      a list of such policies parses back to the same sequence, in order
+  * C08_negate_literal_same_meaning `-`(literal n) is written `-n` and read back as the literal −n: a different
+                                    tree with the same value (why the full statement speaks of meaning, not trees)
+  * C08_marshal_negative_receiver_counterexample   `Long(-5).Access("foo")` is written `-5.foo`, which is rejected
+  * C08_marshal_negated_int_receiver_counterexample `Negate(Long(5).Access("foo"))` likewise
+
+  THE FRAGMENT `Text.policyOKGo` / `Text.inFragGo` (decidable; CedarGo/Model/Text/Fragment.lean): the C07 fragment
+  (bool/long/string/entity literals, variables, all unary and binary operators and methods, if-then-else, attribute
+  access, has, is, is-in, sets, records, extension calls; any annotations with distinct keys, every scope form, any
+  conditions) MINUS negative-literal receivers, `-`(non-negative literal) and `-`(integer-headed postfix chain).
+  NOT covered by theorems (covered by the direct oracle on the Go side only): `like`; strings with U+FFFD;
+  NodeValues holding sets, records or extension values (their printing order / key quoting is not modelled — and
+  has the known defects listed in known_findings.d/C08.json); PolicySet order (a property of the container: C20).
 -/
-import CedarGo.Model.Fold
+import CedarGoProofs.Lemmas.C08Marshal
 namespace CedarGo
+open CedarGo.Text
+
+/-- the Cedar text of `p` parses successfully — and, on this fragment, to `p` itself -/
+theorem C08_marshal_parses_partial (p : Policy) (h : policyOKGo p = true) :
+    parsePolicy (pieceToks (marshalPolicy p)) = some (.ok p)         := parsePolicy_of_reads (policyReads_marshal h)
+
+/-- the reparsed policy has the same effect, annotations and scope and evaluates identically (same value or
+    same failure) on every request and entity store -/
+theorem C08_marshal_meaning_partial (p q : Policy) (h : policyOKGo p = true)
+    (hq : parsePolicy (pieceToks (marshalPolicy p)) = some (.ok q)) :
+    q.effect = p.effect ∧ q.annotations = p.annotations ∧ q.principal = p.principal ∧ q.action = p.action ∧
+    q.resource = p.resource ∧ ∀ env, evalBool (policyToExpr q) env = evalBool (policyToExpr p) env := by
+  rw [parsePolicy_of_reads (policyReads_marshal h)] at hq
+  cases hq
+  exact ⟨rfl, rfl, rfl, rfl, rfl, fun _ => rfl⟩
+
+/-- rendering the reparsed policy reproduces the same bytes -/
+theorem C08_marshal_idempotent_partial (p q : Policy) (h : policyOKGo p = true)
+    (hq : parsePolicy (pieceToks (marshalPolicy p)) = some (.ok q)) :
+    pieceText (marshalPolicy q) = pieceText (marshalPolicy p) := by
+  rw [parsePolicy_of_reads (policyReads_marshal h)] at hq
+  cases hq
+  rfl
+
+/-- rendering a list of policies parses back to the same policies in the same order -/
+theorem C08_list_roundtrip_partial (ps : List Policy) (h : ps.all policyOKGo = true) :
+    parsePolicies (marshalListToks ps) = some (.ok ps) := parsePolicies_of_reads (polsReads_marshal ps h)
+
+example : policyOKGo { effect := .forbid, annotations := [("id", "x")], principal := .is "User", action := .eq ("Action", "a"), resource := .in_ ("NS::Folder", "f"), conditions := [(true, .binop .and (.binop .lt (.binop .sub (.lit (.long 1)) (.lit (.long (-2)))) (.binop .mul (.var .context) (.unop .neg (.var .context))))
+      (.binop .contains (.set [.lit (.long (-1)), .call "ip" [.lit (.str "::1")]]) (.access (.var .principal) "a b"))),
+    (false, .ite (.unop .not (.has (.var .context) "if")) (.record [("k", .lit (.bool true))]) (.call "isIpv4" [.var .context]))] } = true := by
+  decide +kernel
+
+/-- why only meaning can be demanded in general: `Negate(Long n)` is written `-n`, which is the literal −n -/
+theorem C08_negate_literal_same_meaning (n : Int) (h0 : 0 ≤ n) (h1 : n ≤ 9223372036854775807) (env : Env) :
+    eval (.unop .neg (.lit (.long n))) env = eval (.lit (.long (-n))) env ∧
+    pieceToks (marshalExpr (.unop .neg (.lit (.long n)))) = pieceToks (marshalExpr (.lit (.long (-n)))) ∨ n = 0 := by
+  by_cases hn : n = 0
+  · exact .inr hn
+  · left
+    have hpos : 0 < n := by omega
+    constructor
+    · have hmin : (n == minI64) = false := by
+        apply beq_eq_false_iff_ne.mpr; unfold minI64; omega
+      simp [eval, toLong, checkedNeg, hmin, bind, Except.bind]
+    · have h1' : ¬ n < 0 := by omega
+      have h2' : -n < 0 := by omega
+      have h3 : (-n).natAbs = n.toNat := by omega
+      simp [marshalExpr, marshalLit, goWrap, goPrec, h1', h3, hpos]
+
+/-- the property fails in the code: a negative literal receiver is written without parentheses -/
+theorem C08_marshal_negative_receiver_counterexample :
+    ∃ p : Policy, pieceText (marshalPolicy p) = "permit ( principal, action, resource )\nwhen { -5.foo };" ∧
+      errKind (parsePolicy (pieceToks (marshalPolicy p))) = some .exact :=
+  ⟨{ effect := .permit, conditions := [(true, .access (.lit (.long (-5))) "foo")] }, by decide +kernel, by decide +kernel⟩
+
+/-- … and so is the negation of an integer-headed postfix chain (same text, different tree) -/
+theorem C08_marshal_negated_int_receiver_counterexample :
+    ∃ p : Policy, pieceText (marshalPolicy p) = "permit ( principal, action, resource )\nwhen { -5.foo };" ∧
+      errKind (parsePolicy (pieceToks (marshalPolicy p))) = some .exact :=
+  ⟨{ effect := .permit, conditions := [(true, .unop .neg (.access (.lit (.long 5)) "foo"))] }, by decide +kernel, by decide +kernel⟩
 
 end CedarGo
